@@ -71,6 +71,12 @@ func VH_SEQ_V2ReviseRevise() {
 	vh.Assert(vhSignedBy(s, r1, parent.V2FileContract.RenterPublicKey, parent.V2FileContract.HostPublicKey), "accepted revision not signed by the contract's current keys")
 	ms.ApplyV2Transaction(t1)
 	vh.Reach("first-accepted")
+	// the rules are not stricter than stated: acceptance exactly at each bound
+	vh.ReachIf(parent.V2FileContract.ProofHeight == s.childHeight(), "revised-at-proof-height")
+	vh.ReachIf(r1.ProofHeight == s.childHeight(), "new-proof-height-at-bound")
+	vh.ReachIf(r1.ExpirationHeight == r1.ProofHeight+1, "minimal-window")
+	vh.ReachIf(r1.RevisionNumber == parent.V2FileContract.RevisionNumber+1, "revision-number-plus-one")
+	vh.ReachIf(r1.MissedHostValue == parent.V2FileContract.MissedHostValue, "missed-host-value-kept")
 	t2 := vhRevTxn("r2", parent)
 	if err := ValidateV2Transaction(ms, t2); err != nil {
 		vh.Reach("second-rejected")
@@ -187,9 +193,11 @@ func VH_SEQ_V2ResolutionOutputs() {
 	case 1:
 		renter, host = fc.RenterOutput, fc.HostOutput
 		vh.Assert(s.childHeight() >= fc.ProofHeight, "storage proof accepted before the proof height")
+		vh.ReachIf(s.childHeight() == fc.ProofHeight, "proof-at-bound")
 	case 2:
 		renter, host = fc.RenterOutput, types.SiacoinOutput{Value: fc.MissedHostValue, Address: fc.HostOutput.Address}
 		vh.Assert(s.childHeight() > fc.ExpirationHeight, "expiration accepted at or before the expiration height")
+		vh.ReachIf(s.childHeight() == fc.ExpirationHeight+1, "expiry-at-bound")
 	}
 	found := 0
 	for _, d := range ms.sces {
@@ -239,9 +247,8 @@ func VH_SEQ_V2PolicyLocks() {
 	vh.Assert(vh.Implies(err == nil, in.Parent.MaturityHeight <= s.childHeight()), "immature output spent")
 	if err == nil {
 		vh.Reach("accepted")
-		if s.Index.Height == lock {
-			vh.Reach("accepted-at-bound")
-		}
+		vh.ReachIf(s.Index.Height == lock, "accepted-at-bound")
+		vh.ReachIf(in.Parent.MaturityHeight == s.childHeight(), "accepted-at-maturity")
 	}
 }
 
@@ -414,6 +421,8 @@ func VH_SEQ_ForkHeightsAndV1Locks() {
 	vh.Assert(vh.Implies(err == nil, t1.Signatures[0].Timelock <= h), "v1 signature accepted before its timelock")
 	if err == nil {
 		vh.Reach("v1-accepted")
+		vh.ReachIf(h+1 == s.Network.HardforkV2.RequireHeight, "v1-last-height")
+		vh.ReachIf(ts1.SiacoinInputs[0].MaturityHeight == h, "v1-at-maturity")
 	}
 	var t2 types.V2Transaction
 	t2.ArbitraryData = make([]byte, 1)
@@ -422,6 +431,7 @@ func VH_SEQ_ForkHeightsAndV1Locks() {
 	vh.Assert(vh.Implies(err2 == nil, h >= s.Network.HardforkV2.AllowHeight), "v2 transaction accepted before the v2 allow height")
 	if err2 == nil {
 		vh.Reach("v2-accepted")
+		vh.ReachIf(h == s.Network.HardforkV2.AllowHeight, "v2-first-height")
 	}
 }
 
